@@ -8,7 +8,7 @@ LEVEL = "exploration"
 RULE = ("Cases: pool kind FunctorPool / FactoryFunctorPool (no quota), workers 1..3, chunk_size 1..20 (also > len), work_queue_maxsize in "
         "{None,1,2,3,0.4,1.0,2.0}, results_queue_maxsize in {None,1,2,3}, input of 0..12 distinct ints delivered as list / range / "
         "generator whose items and StopIteration arrive after drawn delays, imap or imap_unordered, slow items (later chunks overtake), "
-        "slow consumer; the unmodified pool code runs under the harness-owned scheduler (every primitive operation and every source "
+        "slow consumer; a second part uses items that are None, falsy values and empty containers with the identity as functor (None and falsy results); the unmodified pool code runs under the harness-owned scheduler (every primitive operation and every source "
         "line of own_proc_pools.py / buffers.py is a preemption point) with a generated schedule (<=6 deviations from a base policy, "
         "PCT priorities, or a seeded sticky walk). Oracle: the fully consumed call yields [f(x) for x in data] (imap) / the same "
         "multiset with in-chunk order (imap_unordered); no exception leaves the consumer or any pool thread; after the call no queue "
@@ -76,4 +76,5 @@ def enumerations(tier):
 
 def strategies(tier):
     return [("drawn-schedules", PC.pool_strategy(max_calls=1), 200000 if tier == "thorough" else 6000),
+            ("drawn-none-and-falsy-items", PC.pool_strategy(max_calls=1).map(PC.with_special_items), 20000 if tier == "thorough" else 800),
             ("real-processes", PC.real_strategy(PC.pool_strategy(max_calls=1)), 300 if tier == "thorough" else 14, {"shrink": False})]
